@@ -307,6 +307,13 @@ def l1_datasets(rng, quick):
     out.append(('two-rows-discordant', np.array([[.2, .8], [.6, .3]]), 'small'))
     # boundary tables
     out.append(('tau0-design', np.array([[.1, .2], [.2, .4], [.3, .1], [.4, .3]]), 'boundary'))
+    # Kendall tau EXACTLY 0 (a sample stacked with its reflection v -> 1 - v; tie-free 8-row designs): "non-positive tau returns Frank"
+    for j in range(6):
+        Z = lib_sample(FAMS[j % 3], 0.4, 40 + 10 * j, next(si))
+        out.append((f'tau-exactly-0-reflected-{j}', np.vstack([Z, np.column_stack([Z[:, 0], 1.0 - Z[:, 1]])]), 'boundary'))
+    g8 = (np.arange(8) + 0.5) / 8
+    for j, perm in enumerate(([4, 2, 7, 1, 0, 6, 3, 5], [5, 1, 3, 6, 0, 7, 4, 2], [4, 6, 3, 2, 0, 1, 5, 7], [1, 4, 7, 5, 2, 3, 0, 6], [5, 3, 0, 7, 1, 6, 2, 4])):
+        out.append((f'tau-exactly-0-design8-{j}', np.column_stack([g8, g8[np.array(perm)]]), 'boundary'))
     m = 7
     out.append(('comonotone', np.column_stack([np.linspace(.1, .9, m), np.linspace(.05, .95, m) ** 2]), 'boundary'))
     out.append(('antimonotone', np.column_stack([np.linspace(.1, .9, m), 1 - np.linspace(.05, .95, m)]), 'boundary'))
